@@ -37,7 +37,8 @@ ASSUMPTIONS = [
 MIN_NONTRIVIAL = {'quick': 12000, 'thorough': 200000}
 REQUIRED_MONITORS = ['boundary:PLSSDesc', 'boundary:find_twprge',
                      'contract:unpack_twprge', 'default-filled',
-                     'hostile-neighbour', 'ocr', 'pair']
+                     'hostile-neighbour', 'ocr', 'pair',
+                     'channel:config-object-vs-later-master']
 EXHAUSTIVE_SUBSPACES = {
     'thorough': ["compact spelling, t 1..199 x r 1..130, directions rotating"],
 }
@@ -113,6 +114,19 @@ def check(case, ctx, rep, pytrs):
             elif channel == 'master':
                 MC.default_ns, MC.default_ew = dns, dew
                 d = pytrs.PLSSDesc(txt)
+            elif channel == 'config-object-vs-later-master':
+                # The defaults are written into a Config object while
+                # MasterConfig happens to say the same; the object is then
+                # copied through its text form; MasterConfig changes before
+                # the parse. The configured default still applies.
+                MC.default_ns, MC.default_ew = dns, dew
+                cfg = pytrs.Config(f"{dns},{dew}")
+                cfg = pytrs.Config(cfg if (t + r) % 2 else
+                                   cfg.decompile_to_text())
+                MC.default_ns = 's' if dns == 'n' else 'n'
+                MC.default_ew = 'e' if dew == 'w' else 'w'
+                d = pytrs.PLSSDesc(txt, config=cfg)
+                ctx.hit('channel:config-object-vs-later-master')
             elif channel == 'mixed':
                 # one axis from the config string, the other as keyword
                 d = pytrs.PLSSDesc(txt, config=dns, wait_to_parse=True)
@@ -345,7 +359,8 @@ def gen_case(rng):
             'default_ns': rng.choice('ns'), 'default_ew': rng.choice('ew'),
             'form': name, 'channel': rng.choice(['config', 'keyword', 'master',
                                                  'keyword-over-config',
-                                                 'mixed', 'mixed2']),
+                                                 'mixed', 'mixed2',
+                                                 'config-object-vs-later-master']),
             'text': txt, 'hostile': hostile}
 
 
